@@ -174,11 +174,43 @@ func stdDump(v interface{}) string {
 // rcu: concurrent rounds
 
 type rcuType struct {
-	t    reflect.Type
-	val  interface{} // a value of type t
-	ptr  interface{} // pointer to an addressable copy
-	doc  []byte      // encoding/json text of val
-	path string      // name of the first JSON member, "" when the object is empty
+	t      reflect.Type
+	val    interface{} // a value of type t
+	ptr    interface{} // pointer to an addressable copy
+	doc    []byte      // encoding/json text of val
+	path   string      // name of the first JSON member, "" when the object is empty
+	folded []byte      // doc with the letters of every object key in random upper/lower case
+}
+
+// concFoldKeys flips the case of letters inside object keys (strings followed by ':'); same length, ASCII only
+func concFoldKeys(r *rand.Rand, doc []byte) []byte {
+	out := append([]byte(nil), doc...)
+	for i := 0; i < len(out); i++ {
+		if out[i] != '"' {
+			continue
+		}
+		j := i + 1
+		for j < len(out) && out[j] != '"' {
+			if out[j] == '\\' {
+				j++
+			}
+			j++
+		}
+		if j+1 < len(out) && out[j+1] == ':' {
+			for k := i + 1; k < j; k++ {
+				c := out[k]
+				if r.Intn(2) == 0 {
+					if c >= 'a' && c <= 'z' {
+						out[k] = c - 32
+					} else if c >= 'A' && c <= 'Z' {
+						out[k] = c + 32
+					}
+				}
+			}
+		}
+		i = j
+	}
+	return out
 }
 
 type rcuCall struct {
@@ -186,7 +218,7 @@ type rcuCall struct {
 	ty   int
 }
 
-const rcuKinds = 9
+const rcuKinds = 11
 
 func rcuFirstKey(doc []byte) string {
 	var m map[string]json.RawMessage
@@ -238,6 +270,10 @@ func rcuDoSonic(c rcuCall, ty *rcuType) string {
 	case 7:
 		b, err := sonic.ConfigStd.Marshal(ty.val)
 		return "m:" + string(b) + errStr(err)
+	case 9, 10:
+		p := reflect.New(ty.t)
+		err := sonic.Unmarshal(ty.folded, p.Interface())
+		return "u:" + stdDump(p.Interface()) + errStr(err)
 	default:
 		s, err := sonic.MarshalString(ty.val)
 		return "m:" + s + errStr(err)
@@ -255,6 +291,10 @@ func rcuDoStd(c rcuCall, ty *rcuType) string {
 	case 2, 3:
 		p := reflect.New(ty.t)
 		err := json.Unmarshal(ty.doc, p.Interface())
+		return "u:" + stdDump(p.Interface()) + errStr(err)
+	case 9, 10:
+		p := reflect.New(ty.t)
+		err := json.Unmarshal(ty.folded, p.Interface())
 		return "u:" + stdDump(p.Interface()) + errStr(err)
 	case 4:
 		return "p:"
@@ -309,7 +349,7 @@ func opRCU(a []string) string {
 		if err != nil {
 			return "sonic=unsupported"
 		}
-		types[i] = &rcuType{t: t, val: v.Elem().Interface(), ptr: v.Interface(), doc: doc, path: rcuFirstKey(doc)}
+		types[i] = &rcuType{t: t, val: v.Elem().Interface(), ptr: v.Interface(), doc: doc, path: rcuFirstKey(doc), folded: concFoldKeys(r, doc)}
 	}
 	// every goroutine gets every type once, in its own order, with its own call kind per type; the
 	// first goroutines start on the same type so that first-use compilation is raced
@@ -561,6 +601,67 @@ func hCollideVal(t reflect.Type, a, b int64) reflect.Value {
 
 const hCollideDoc = `{"a":10,"b":20,"c":30}`
 
+// defined pointer type whose element has a pointer-receiver Unmarshaler (issue 379 rule of the decoders):
+// encoding/json and both sonic decoders decode the element of `hRef` field by field, never through the method
+type hItem struct {
+	Name string
+	Qty  int
+}
+
+func (p *hItem) UnmarshalJSON(b []byte) error {
+	p.Name, p.Qty = "via-UnmarshalJSON", -1
+	return nil
+}
+
+type hRef *hItem
+
+type hTItem struct{ V string }
+
+func (p *hTItem) UnmarshalText(b []byte) error { p.V = "via-UnmarshalText"; return nil }
+
+type hTRef *hTItem
+
+type hRefL1 struct {
+	ID    int
+	Items []hRef
+}
+type hRefL3 struct {
+	A struct {
+		B struct {
+			Items []hRef
+			M     map[string]hRef
+		}
+	}
+}
+type hRefL5 struct {
+	A struct {
+		B struct {
+			C struct {
+				D struct {
+					Items [][]hRef
+					T     []hTRef
+					Own   []*hItem
+				}
+			}
+		}
+	}
+}
+
+const hItemsDoc = `[{"Name":"bolt","Qty":3},{"Name":"nut","Qty":4}]`
+
+// structs with >= 50 fields (the decoders' width cutoff), built once
+var hWideA, hWideB, hWideHolder reflect.Type
+
+func hWide(prefix string, n int, kind reflect.Type) reflect.Type {
+	fs := make([]reflect.StructField, n)
+	for i := range fs {
+		fs[i] = reflect.StructField{Name: fmt.Sprintf("%s%02d", prefix, i), Type: kind}
+	}
+	return reflect.StructOf(fs)
+}
+
+const hWideDoc = `{"F00":1,"F07":7,"F51":51,"G00":"g0","G33":"g33","g51":"fold"}`
+
 type histProbe struct {
 	name string
 	run  func(std bool) string
@@ -666,6 +767,37 @@ func init() {
 	histTypeSets["sameloc"] = []reflect.Type{ta, tb}
 	histTypeSets["samelocr"] = []reflect.Type{tb, ta}
 	histTypeSets["sameall"] = []reflect.Type{ta, reflect.TypeOf(pkga.T{}), tb, reflect.TypeOf(pkgb.T{})}
+	hWideA = hWide("F", 52, reflect.TypeOf(int(0)))
+	hWideB = hWide("G", 52, reflect.TypeOf(""))
+	hWideHolder = reflect.StructOf([]reflect.StructField{
+		{Name: "P", Type: reflect.TypeOf(hPlain{})}, {Name: "W", Type: hWideA}, {Name: "X", Type: reflect.PtrTo(hWideB)},
+		{Name: "L", Type: reflect.SliceOf(hWideA)}, {Name: "D", Type: reflect.TypeOf(hD4{})}})
+	wideHolderDoc := `{"P":{"I":1,"S":"s"},"W":` + hWideDoc + `,"X":` + hWideDoc + `,"L":[` + hWideDoc + `],"D":{"D":{"E":{"Z":1,"S":"z"}}}}`
+	newOf := func(t reflect.Type) func() interface{} {
+		return func() interface{} { return reflect.New(t).Interface() }
+	}
+	histProbes = append(histProbes,
+		// groups nref, wide: defined pointer types with Unmarshaler elements at several depths, wide structs (Unmarshal)
+		uprobe("nref.ref0.u", hItemsDoc, func() interface{} { return new([]hRef) }),
+		uprobe("nref.ref1.u", `{"ID":7,"Items":`+hItemsDoc+`}`, func() interface{} { return new(hRefL1) }),
+		uprobe("nref.ref3.u", `{"A":{"B":{"Items":`+hItemsDoc+`,"M":{"k":{"Name":"m","Qty":9}}}}}`, func() interface{} { return new(hRefL3) }),
+		uprobe("nref.ref5.u", `{"A":{"B":{"C":{"D":{"Items":[`+hItemsDoc+`],"T":[{"V":"t"}],"Own":`+hItemsDoc+`}}}}}`, func() interface{} { return new(hRefL5) }),
+		uprobe("nref.refmap.u", `{"a":`+hItemsDoc+`}`, func() interface{} { return new(map[string][]hRef) }),
+		uprobe("nref.refptr.u", `[`+hItemsDoc+`]`, func() interface{} { return new([]*[]hRef) }),
+		uprobe("nref.item.u", `{"Name":"own","Qty":1}`, func() interface{} { return new(hItem) }),
+		uprobe("wide.a.u", hWideDoc, newOf(hWideA)),
+		uprobe("wide.b.u", hWideDoc, newOf(hWideB)),
+		uprobe("wide.holder.u", wideHolderDoc, newOf(hWideHolder)),
+		uprobe("wide.slice.u", `[`+hWideDoc+`,`+hWideDoc+`]`, newOf(reflect.SliceOf(hWideB))),
+		mprobe("wide.a.m", func() interface{} { v := reflect.New(hWideA); v.Elem().Field(7).SetInt(7); return v.Elem().Interface() }))
+	histTypeSets["nptr"] = []reflect.Type{reflect.TypeOf(hRefL1{}), reflect.TypeOf([]hRef{}), reflect.TypeOf(hRefL3{}), reflect.TypeOf(hRefL5{}),
+		reflect.TypeOf(map[string][]hRef{}), reflect.TypeOf([]*[]hRef{})}
+	histTypeSets["nptrr"] = []reflect.Type{reflect.TypeOf(hRefL5{}), reflect.TypeOf(hItem{}), reflect.TypeOf(hRefL1{}), reflect.TypeOf([]hRef{})}
+	histTypeSets["wide"] = []reflect.Type{hWideA, hWideB}
+	histTypeSets["wider"] = []reflect.Type{hWideB, hWideA}
+	histTypeSets["widemix"] = []reflect.Type{reflect.TypeOf(hPlain{}), hWideA, reflect.TypeOf(hD1{}), hWideB, reflect.TypeOf(hTree{}), reflect.SliceOf(hWideB)}
+	histTypeSets["wideholder"] = []reflect.Type{hWideHolder}
+	histTypeSets["widea"] = []reflect.Type{hWideA}
 	x, y, ok := hCollide()
 	if ok {
 		histProbes = append(histProbes,
